@@ -557,6 +557,228 @@ def _schedulexec_shape_ok():
     return "true" if ok else "false"
 
 
+# ---- C02 / C03 / C07 / C10 : the receiving side of a channel -------------------------------------
+
+
+def _src(node) -> str:
+    return unparse(node) if not isinstance(node, list) else unparse(ast.Module(body=node, type_ignores=[]))
+
+
+def _body_nodoc(f):
+    return [n for n in f.body if not (isinstance(n, ast.Expr) and isinstance(n.value, ast.Constant) and isinstance(n.value.value, str))]
+
+
+@fact("chan_setcb_atomic", "bool", "false")
+def _chan_setcb_atomic():
+    """Channel.setcallback: everything that touches the queue, registers the callback or calls it sits inside ONE
+    `with self.gateway._receivelock:` block (taking the queue away, replaying the queued items, registering)"""
+    f = find("gateway_base.py", "Channel.setcallback")
+    body = _body_nodoc(f)
+    withs = [n for n in body if isinstance(n, ast.With) and "self.gateway._receivelock" in _src(n.items[0].context_expr)]
+    if len(withs) != 1:
+        return "false"
+    w = withs[0]
+    for n in body:
+        if n is w:
+            continue
+        t = _src(n)
+        if "callback(" in t or "_items" in t or ".get(" in t or ".put(" in t or "_callbacks[" in t:
+            return "false"
+    t = _src(w)
+    need = ["if self._items is None", "items = self._items", "self._items = None", "items.get(block=False)", "_callbacks[self.id] = (callback, endmarker, self._strconfig)",
+            "if not (self._closed or self._receiveclosed.is_set())", "if olditem is ENDMARKER", "items.put(olditem)", "if endmarker is not NO_ENDMARKER_WANTED", "callback(endmarker)", "callback(olditem)"]
+    return "true" if all(x in t for x in need) else "false"
+
+
+@fact("chan_receiver_locked", "bool", "false")
+def _chan_receiver_locked():
+    """BaseGateway._thread_receiver handles every message inside `with self._receivelock:`; handlers are reached
+    only through Message.received"""
+    f = find("gateway_base.py", "BaseGateway._thread_receiver")
+    ok = False
+    for w in ast.walk(f):
+        if isinstance(w, ast.With) and _src(w.items[0].context_expr) == "self._receivelock" and "msg.received(self)" in _src(w.body):
+            ok = True
+    n = _src(f).count(".received(")
+    return "true" if ok and n == 1 else "false"
+
+
+@fact("chan_receive_shape_ok", "bool", "false")
+def _chan_receive_shape_ok():
+    """Channel.receive: refuses when the queue was taken by a callback, BLOCKS in itemqueue.get(timeout=timeout),
+    puts an ENDMARKER back before raising the remote error or EOFError, returns anything else"""
+    f = find("gateway_base.py", "Channel.receive")
+    body = _body_nodoc(f)
+    t = [_src(n) for n in body]
+    if len(body) != 4:
+        return "false"
+    ok = t[0] == "itemqueue = self._items" and t[1].startswith("if itemqueue is None:\n    raise OSError(")
+    tr = body[2]
+    ok = ok and isinstance(tr, ast.Try) and _src(tr.body) == "x = itemqueue.get(timeout=timeout)" and len(tr.handlers) == 1 and "queue.Empty" in _src(tr.handlers[0].type) and "raise self.TimeoutError" in _src(tr.handlers[0].body)
+    ok = ok and t[3] == "if x is ENDMARKER:\n    itemqueue.put(x)\n    raise self._getremoteerror() or EOFError()\nelse:\n    return x"
+    g = _src(find("gateway_base.py", "Channel._getremoteerror"))
+    ok = ok and "self._remoteerrors.pop(0)" in g and "except IndexError" in g
+    return "true" if ok else "false"
+
+
+@fact("chan_local_close_order_ok", "bool", "false")
+def _chan_local_close_order_ok():
+    """ChannelFactory._local_close on a registered channel: error appended BEFORE the ENDMARKER is queued (a receiver
+    that sees the ENDMARKER finds the error), then unregistered, then _closed, then _receiveclosed.set()"""
+    f = find("gateway_base.py", "ChannelFactory._local_close")
+    body = _body_nodoc(f)
+    if len(body) != 2 or _src(body[0]) != "channel = self._channels.get(id)" or not isinstance(body[1], ast.If) or _src(body[1].test) != "channel is None":
+        return "false"
+    gone = _src(body[1].body)
+    if "self._no_longer_opened(id)" not in gone or "channel." in gone:
+        return "false"
+    t = [_src(n) for n in body[1].orelse]
+    want = ["if remoteerror:\n    channel._remoteerrors.append(remoteerror)", "queue = channel._items", "if queue is not None:\n    queue.put(ENDMARKER)",
+            "self._no_longer_opened(id)", "if not sendonly:\n    channel._closed = True", "channel._receiveclosed.set()"]
+    if t != want:
+        return "false"
+    n = _src(find("gateway_base.py", "ChannelFactory._no_longer_opened"))
+    ok = "self._channels.pop(id, None)" in n and "item = self._callbacks.pop(id, None)" in n and "if endmarker is not NO_ENDMARKER_WANTED:\n            callback(endmarker)" in n
+    return "true" if ok else "false"
+
+
+@fact("chan_local_receive_shape_ok", "bool", "false")
+def _chan_local_receive_shape_ok():
+    """ChannelFactory._local_receive: a registered callback takes the item; else the item is queued on the registered
+    channel's queue; else (no channel / queue taken) dropped"""
+    f = find("gateway_base.py", "ChannelFactory._local_receive")
+    body = _body_nodoc(f)
+    if len(body) != 2 or _src(body[0]) != "channel = self._channels.get(id)" or not isinstance(body[1], ast.Try):
+        return "false"
+    tr = body[1]
+    ok = _src(tr.body) == "callback, _endmarker, strconfig = self._callbacks[id]" and len(tr.handlers) == 1 and _src(tr.handlers[0].type) == "KeyError"
+    h = _src(tr.handlers[0].body)
+    ok = ok and h == "queue = channel._items if channel is not None else None\nif queue is None:\n    pass\nelse:\n    item = loads_internal(data, channel)\n    queue.put(item)"
+    e = _src(tr.orelse)
+    ok = ok and e.startswith("try:\n    data = loads_internal(data, channel, strconfig)\n    callback(data)\nexcept Exception as exc:")
+    return "true" if ok else "false"
+
+
+@fact("chan_cb_error_closes_with_error", "bool", "false")
+def _chan_cb_error_closes_with_error():
+    """a raising callback: CHANNEL_CLOSE_ERROR with the error text is sent to the peer and the channel is closed
+    locally WITH that error"""
+    f = find("gateway_base.py", "ChannelFactory._local_receive")
+    t = _src(f)
+    i = t.find("self.gateway._send(Message.CHANNEL_CLOSE_ERROR, id, dumps_internal(errortext))")
+    j = t.find("self._local_close(id, RemoteError(errortext))")
+    return "true" if 0 <= i < j and "errortext = self.gateway._geterrortext(exc)" in t else "false"
+
+
+@fact("chan_handlers_ok", "bool", "false")
+def _chan_handlers_ok():
+    """the message handlers map CHANNEL_DATA / CLOSE / CLOSE_ERROR / LAST_MESSAGE onto _local_receive / _local_close"""
+    m = _src(find("gateway_base.py", "Message"))
+    need = ["gateway._channelfactory._local_receive(message.channelid, message.data)", "gateway._channelfactory._local_close(message.channelid)",
+            "gateway._channelfactory._local_close(message.channelid, remote_error)", "gateway._channelfactory._local_close(message.channelid, sendonly=True)"]
+    return "true" if all(x in m for x in need) else "false"
+
+
+# ---- C18 : channel ids -------------------------------------------------------------------------------
+
+
+@fact("ids_alloc_locked", "bool", "false")
+def _ids_alloc_locked():
+    """ChannelFactory.new: the whole body is one `with self._writelock:`; inside, a fresh id is `id = self.count;
+    self.count += <step>` under `if id is None:`"""
+    f = find("gateway_base.py", "ChannelFactory.new")
+    body = _body_nodoc(f)
+    if len(body) != 1 or not isinstance(body[0], ast.With) or _src(body[0].items[0].context_expr) != "self._writelock":
+        return "false"
+    inner = body[0].body
+    ifs = [n for n in inner if isinstance(n, ast.If) and _src(n.test) == "id is None"]
+    if len(ifs) != 1 or ifs[0].orelse:
+        return "false"
+    t = [_src(n) for n in ifs[0].body]
+    return "true" if len(t) == 2 and t[0] == "id = self.count" and t[1].startswith("self.count += ") else "false"
+
+
+@fact("ids_adopt_keeps_count", "bool", "false")
+def _ids_adopt_keeps_count():
+    """nothing but __init__ and the fresh-id branch of new() assigns ChannelFactory.count (anywhere in the package)"""
+    n = 0
+    for fn in sorted(os.listdir(SRC)):
+        if not fn.endswith(".py"):
+            continue
+        for node in ast.walk(tree(fn)):
+            tgt = []
+            if isinstance(node, ast.Assign):
+                tgt = node.targets
+            elif isinstance(node, (ast.AugAssign, ast.AnnAssign)):
+                tgt = [node.target]
+            for t in tgt:
+                for sub in ast.walk(t):
+                    if isinstance(sub, ast.Attribute) and sub.attr == "count" and not _src(sub).startswith("self._"):
+                        n += 1
+            if isinstance(node, ast.Call) and _src(node.func) in ("setattr",) and len(node.args) > 1 and "count" in _src(node.args[1]):
+                n += 100
+    # exactly two: `self.count = startcount` and `self.count += step`
+    init = _src(find("gateway_base.py", "ChannelFactory.__init__"))
+    return "true" if n == 2 and "self.count = startcount" in init else "false"
+
+
+@fact("ids_step", "nat", "0")
+def _ids_step():
+    f = find("gateway_base.py", "ChannelFactory.new")
+    for node in ast.walk(f):
+        if isinstance(node, ast.AugAssign) and _src(node.target) == "self.count" and isinstance(node.op, ast.Add) and isinstance(node.value, ast.Constant) and isinstance(node.value.value, int) and 0 <= node.value.value < 100:
+            return str(node.value.value)
+    return "0"
+
+
+def _startcount_of(fn, qual, callee):
+    f = find(fn, qual) if qual else tree(fn)
+    vals = []
+    for node in ast.walk(f):
+        if isinstance(node, ast.Call) and _src(node.func).endswith(callee):
+            for kw in node.keywords:
+                if kw.arg == "_startcount" and isinstance(kw.value, ast.Constant) and isinstance(kw.value.value, int) and 0 <= kw.value.value < 100:
+                    vals.append(kw.value.value)
+    if len(vals) != 1:
+        raise LookupError(callee)
+    return vals[0]
+
+
+@fact("ids_start_initiator", "nat", "0")
+def _ids_start_initiator():
+    """Gateway.__init__ -> BaseGateway.__init__(_startcount=1) -> ChannelFactory(self, _startcount)"""
+    bg = _src(find("gateway_base.py", "BaseGateway.__init__"))
+    if "self._channelfactory = ChannelFactory(self, _startcount)" not in bg:
+        raise LookupError("BaseGateway.__init__")
+    return str(_startcount_of("gateway.py", "Gateway.__init__", "__init__"))
+
+
+@fact("ids_start_worker", "nat", "1")
+def _ids_start_worker():
+    """serve(): WorkerGateway(io=io, id=id, _startcount=2); no other construction of a WorkerGateway in the package"""
+    n = 0
+    for fn in sorted(os.listdir(SRC)):
+        if fn.endswith(".py"):
+            for node in ast.walk(tree(fn)):
+                if isinstance(node, ast.Call) and _src(node.func).endswith("WorkerGateway"):
+                    n += 1
+    if n != 1:
+        raise LookupError("WorkerGateway constructed %d times" % n)
+    return str(_startcount_of("gateway_base.py", "serve", "WorkerGateway"))
+
+
+@fact("ids_codec_by_id", "bool", "false")
+def _ids_codec_by_id():
+    """a Channel is serialised as its id and unserialised by ChannelFactory.new(id) on the receiving gateway;
+    the tables are a WeakValueDictionary (objects) and a dict popped by _no_longer_opened"""
+    sv = _src(find("gateway_base.py", "_Serializer.save_Channel"))
+    ld = _src(find("gateway_base.py", "Unserializer.load_channel"))
+    init = _src(find("gateway_base.py", "ChannelFactory.__init__"))
+    ok = "self._write_int4(channel.id)" in sv and "id = self._read_int4()" in ld and "newchannel = self.channelfactory.new(id)" in ld and "self.stack.append(newchannel)" in ld
+    ok = ok and "weakref.WeakValueDictionary()" in init
+    return "true" if ok else "false"
+
+
 DIGESTS = [
     ("gateway_base.py", "WorkerGateway._local_schedulexec"),
     ("gateway_base.py", "WorkerGateway.executetask"),
@@ -585,6 +807,12 @@ DIGESTS = [
     ("multi.py", "Group._unregister"),
     ("multi.py", "Group.__getitem__"),
     ("multi.py", "Group.__contains__"),
+    ("gateway_base.py", "Channel.setcallback"),
+    ("gateway_base.py", "Channel.receive"),
+    ("gateway_base.py", "Channel.close"),
+    ("gateway_base.py", "Channel.__del__"),
+    ("gateway_base.py", "ChannelFactory"),
+    ("gateway_base.py", "BaseGateway._thread_receiver"),
     ("gateway_base.py", "ChannelFileRead.read"),
     ("gateway_base.py", "ChannelFileRead.readline"),
     ("gateway_base.py", "ChannelFileWrite"),
@@ -597,7 +825,7 @@ def main() -> int:
         "(* GENERATED by tools/gen_facts.py from %s on every run -- do not edit *)" % SRC,
         "From Coq Require Import ZArith List String.",
         "Import ListNotations.",
-        "Require Import EV.model.Cfg EV.model.GroupIds.",
+        "Require Import EV.model.Cfg EV.model.GroupIds EV.model.Ids.",
         "Open Scope string_scope.",
         "",
     ]
@@ -610,6 +838,7 @@ def main() -> int:
             js["errors"][name] = f"{type(e).__name__}: {e}"
         js["facts"][name] = term
         lines.append(f"Definition {name} : {typ} := {term}.")
+    lines.append("Definition ids_cfg : Ids.icfg := {| Ids.alloc_locked := ids_alloc_locked; Ids.adopt_keeps_count := ids_adopt_keeps_count; Ids.startA := ids_start_initiator; Ids.startB := ids_start_worker; Ids.step := ids_step |}.")
     lines.append("Definition group_cfg : GroupIds.gcfg := {| GroupIds.alloc_read_locked := grp_alloc_read_locked; GroupIds.explicit_checked := grp_explicit_checked; GroupIds.register_atomic := grp_register_atomic |}.")
     for fn, q in DIGESTS:
         js["digests"][f"{fn}:{q}"] = digest(fn, q)
